@@ -97,6 +97,9 @@ func (ft *FuncTr) call(st *State, at *Term, in ssa.Instruction, c *ssa.CallCommo
 		cname = fname // call of a function stored in a struct field: field:<pkg>.<Type>.<field>
 	}
 	ft.curCallNth = ft.callOrdinal(in, cname)
+	if cname != "" && ft.calledTrack[lastName(cname)] {
+		st.ghost["$called_"+lastName(cname)] = TTrue // `called(name)` in exit / loop-end assertions
+	}
 	// escape: a callee (or an append / copy into an older array) can make objects allocated here reachable from older
 	// objects only if it is handed something that can carry a reference
 	if _, isB := c.Value.(*ssa.Builtin); !isB {
